@@ -13,7 +13,7 @@ EXIT_META = {
         "C10.exit.*: SPEC_EXIT(r, top) = (r != VM_OK ? 1 : top.tag == TAG_INT ? (int)top.i64 : 0) is read off the reference "
         "`nano_virt --run` (src/nanovirt/main.c) and checked against that code by C10.exit.virt; vm_execute / vm_get_result are cut at "
         "their interface: they return the ghost inputs __verif_vm_r / __verif_top_tag / __verif_top_i64 (arbitrary, never assigned); "
-        "vm_call_function (the wrapper's explicit __init__ call) returns an arbitrary VmResult; all other VM/NVM API calls are no-effect stubs",
+        "vm_execute runs __init__ itself (read from vm.c vm_execute, not under contract here): ghost init_runs +1; a direct vm_call_function by a launcher returns an arbitrary VmResult and counts as one more __init__ run (C10.init.once demands <= 1); all other VM/NVM API calls are no-effect stubs",
         "the value compared is the int returned by main / run_standalone; the operating system keeps its low 8 bits",
         "C10.exit.wrapper.*: the text under proof is printed by the REAL write_wrapper_c (native build of src/nanovirt/wrapper_gen.c, "
         "harness/wrapper_gen_driver.c) at check time for import_count == 0 and import_count > 0 (strength X over the generator's only "
@@ -84,5 +84,5 @@ def exit_obligations(prop="C10", repo=None):
                         extract=["wrapper_main_imp%d" % imp], defines={"EXIT_UNIT_WRAPPER": 1}, enforce="wrapper_main",
                         loops=True, unwind="auto", checks=[], flags=NOCHK, gi_flags=GI, strength="X",
                         functions=["main emitted by write_wrapper_c (import_count %s 0)" % ("==" if imp == 0 else ">")],
-                        timeout=600, must_have=[r"wrapper_main\.postcondition", r"loop_invariant_step"], min_checks=20))
+                        timeout=600, must_have=[r"wrapper_main\.postcondition"] + ([r"loop_invariant_step"] if imp else []), min_checks=20))
     return obs
